@@ -10,7 +10,7 @@ V = "/verif"; R = "/repo"
 ENV = dict(os.environ, GOFLAGS="-mod=mod", GOPROXY="off")
 
 def sh(cmd, **kw):
-    return subprocess.run(cmd, shell=True, text=True, capture_output=True, env=ENV, **kw)
+    return subprocess.run(cmd, shell=True, text=True, errors="replace", capture_output=True, env=ENV, **kw)
 
 def artifacts():
     out = sh(f"cd {V} && python3 tools/artifacts.py").stdout.split()
@@ -126,7 +126,7 @@ def cmd_refresh(sid):
                 if r.returncode != 0:
                     print(sid, "APPLY FAILED", r.stderr[:800]); return 1
                 sh(f"git -C {wt} reset -q")
-            rr = subprocess.run(f"cd {V} && ./bin/pv regen --write", shell=True, text=True, capture_output=True, env=env)
+            rr = subprocess.run(f"cd {V} && ./bin/pv regen --write", shell=True, text=True, errors="replace", capture_output=True, env=env)
             if not re.search(r" 0 errors", rr.stdout):
                 print(sid, "REGEN problems:", rr.stdout[-600:])
         sh(f"git -C {wt} checkout -- go.sum")
@@ -162,22 +162,22 @@ def cmd_wt(sid, checks, verify=True):
                 if r.returncode != 0:
                     print(sid, "APPLY FAILED", r.stderr[:1500]); return 1
                 sh(f"git -C {wt} reset -q")
-            r = subprocess.run(f"cd {V} && ./bin/pv regen --write", shell=True, text=True, capture_output=True, env=env)
+            r = subprocess.run(f"cd {V} && ./bin/pv regen --write", shell=True, text=True, errors="replace", capture_output=True, env=env)
             if not re.search(r" 0 errors", r.stdout):
                 print(sid, "REGEN problems:", r.stdout[-1500:])
         if verify:
-            t = subprocess.run(f"cd {wt} && go build ./... && go test -vet=off -count=1 ./... 2>&1 | grep -v '^ok\\|no test files' | head -20", shell=True, text=True, capture_output=True, env=env)
+            t = subprocess.run(f"cd {wt} && go build ./... && go test -vet=off -count=1 ./... 2>&1 | grep -v '^ok\\|no test files' | head -20", shell=True, text=True, errors="replace", capture_output=True, env=env)
             suite_ok = (t.stdout.strip() == "" and t.returncode == 0)
             meta["suite_with_change"] = "pass" if suite_ok else "FAIL: " + (t.stdout + t.stderr)[:500]
             demo = "n/a"
             if os.path.exists(f"{d}/demo/run.sh"):
-                dr = subprocess.run(f"cd {d}/demo && WT={wt} bash run.sh {wt}", shell=True, text=True, capture_output=True, env=env)
+                dr = subprocess.run(f"cd {d}/demo && WT={wt} bash run.sh {wt}", shell=True, text=True, errors="replace", capture_output=True, env=env)
                 demo = "fails (exit %d)" % dr.returncode if dr.returncode != 0 else "PASSES (demo does not show the break)"
             meta["demo_with_change"] = demo
             print(f"{sid}: suite={meta['suite_with_change'][:60]} demo={demo}")
         for chk in checks:
             t0 = time.time()
-            r = subprocess.run(f"cd {V} && PV_NOEVIDENCE=1 ./bin/pv check {chk} --tier quick", shell=True, text=True, capture_output=True, env=env)
+            r = subprocess.run(f"cd {V} && PV_NOEVIDENCE=1 ./bin/pv check {chk} --tier quick", shell=True, text=True, errors="replace", capture_output=True, env=env)
             out = r.stdout + r.stderr
             open(f"{d}/run-{chk}.txt", "w").write(out)
             viol = [l for l in out.splitlines() if l.startswith("VIOLATION")]
